@@ -212,6 +212,16 @@ def presence_bit_values(cls, bit_call='append_bit', depth=2):
             for n in ast.walk(f):
                 if isinstance(n, ast.Assign) and any(isinstance(t, ast.Name) and t.id == e.id for t in n.targets):
                     expand(f, n.value, d - 1) if d > 0 else None
+                # the bits come from a generator of the family:  for bit in self.presence_bits(data): stream.append_bit(bit)
+                if isinstance(n, (ast.For, ast.comprehension)) and isinstance(n.target, ast.Name) and n.target.id == e.id and isinstance(n.iter, ast.Call) and d > 0:
+                    g = res(n.iter)
+                    if g is not None:
+                        for y in ast.walk(g):
+                            if isinstance(y, ast.Yield) and y.value is not None:
+                                expand(g, y.value, d - 1)
+                            elif isinstance(y, ast.Return) and isinstance(y.value, (ast.List, ast.Tuple)):
+                                for el in y.value.elts:
+                                    expand(g, el, d - 1)
     for name, (c, f) in sorted(methods_of(cls).items()):
         for n in ast.walk(f):
             if isinstance(n, ast.Call) and isinstance(n.func, ast.Attribute) and n.func.attr == bit_call and len(n.args) == 1:
